@@ -261,6 +261,24 @@ def runner(rep, tier, seed, replay):
             disagree += 1
     if to_run and unsettled > max(3, len(to_run) // 5):
         raise ToolError("%d of %d pty sessions did not settle" % (unsettled, len(to_run)))
+    # ---- which part of the line TAB replaces: spec/WordStart.tla is escaped_word_start transcribed statement by statement; every
+    # string over {a, blank, ' " \, multi-byte} up to length 6 (thorough 7) must get the same word start from the real function
+    # (conformance: drift is reported); TLC checks the transcription against the reference reader's word boundary
+    # (AgreesUnlessDoubleBackslash: the two exceptions are named deviations of the code)
+    wcases = []
+    rw = run_tlc("MCWordStart", "MCWordStart_6" if tier == "quick" else "MCWordStart_7", on_replay=wcases.append, keep_replays=False, timeout=3000)
+    if rw.violation:
+        raise ToolError("the transcription of escaped_word_start disagrees with the reference outside the named exceptions:\n" + rw.violation[:2000])
+    rep.add_tlc(rw)
+    wgot = inproc_map("wordstart", [{"id": i, "line": txt(w["s"])} for i, w in enumerate(wcases)], timeout=20)
+    wdrift = [w["s"] for w, g in zip(wcases, wgot) if not g or g.get("start") != w["start"]]
+    if wdrift:
+        log("[C20] word-start transcription drift on %d strings, e.g. %r" % (len(wdrift), wdrift[:5]))
+    rep.cov["wordstart_strings"] = len(wcases)
+    rep.cov["wordstart_drift"] = len(wdrift)
+    rep.cov["wordstart_drift_examples"] = wdrift[:10]
+    rep.cov["wordstart_vs_reference_disagreements"] = sum(1 for w in wcases if w["start"] != w["ref"])
+    rep.cov["spec_drift"] = len(wdrift)
     rep.cov["distinct_nontrivial"] = len({(c["name"], c["ctx"], c["variant"]) for c in cases if c["feat"]["specials"]})
     rep.cov["traces_validated_against_impl"] = rep.cov["evaluations"] + len(to_run) - unsettled
     rep.cov["inprocess_mismatches"] = len(mism)
